@@ -73,8 +73,53 @@ def analyse_key_fn(ctx, inst, kf):
 
     sorted_src = {}
 
-    def elem_of(v):
-        """('sorted', k) when v is sorted_vec[k]; ('param', k) when v is the unsorted argument's element k."""
+    def find_ordering():
+        """`let (first, second) = if K(b) < K(a) { (b, a) } else { (a, b) }` over the two elements of the argument:
+        returns {'T': region, 'F': region, 'eA': i, 'eB': j, 'callees': set} meaning K(arg[i]) < K(arg[j]) on the true edge."""
+        for g_ in common.bool_guards(P, kf):
+            c_ = g_.cond
+            if c_[0] != "cmp" or c_[1] not in ("lt", "gt", "le", "ge") or len(c_[2]) != 2:
+                continue
+            # one level only: the ordering-key helper is opened, the tag function inside it stays a call
+            A, B = ((common.inline_call(P, x) or x) for x in c_[2])
+            if c_[1] in ("gt", "ge"):
+                A, B = B, A
+
+            def key_of(v):
+                calls_ = [x for x in common.walk(v) if x[0] == "call" and isinstance(x[3], str) and x[4] and
+                          re.match(r"^%s\[(\d)\]$" % re.escape(P_(kf, 0)), "|".join(sorted(ctx.roots(x[4][0]))))]
+                idx = {int(re.match(r"^%s\[(\d)\]$" % re.escape(P_(kf, 0)), "|".join(sorted(ctx.roots(x[4][0])))).group(1)) for x in calls_}
+                names_ = ["as_bytes" if ctx.N.is_fn(x[3], "raw_as_bytes") else generic_path(x[3]) for x in calls_]
+                return (list(idx)[0] if len(idx) == 1 else None, names_)
+            ia, na = key_of(A)
+            ib, nb = key_of(B)
+            if ia is None or ib is None or ia == ib or na != nb or not na:
+                continue
+            return {"T": common.region_of_edge(body, g_.edge(True)), "F": common.region_of_edge(body, g_.edge(False)), "eA": ia, "eB": ib,
+                    "callees": set(na), "guard": g_}
+        return None
+    ordering = find_ordering()
+
+    def elem_of(v, call=None):
+        """('sorted', k) when v is sorted_vec[k] (or the k-th of a compare-and-swapped pair); ('param', k) when v is the
+        unsorted argument's element k."""
+        if ordering is not None and call is not None:
+            rs0 = set(ctx.roots(v))
+            both = {"%s[0]" % P_(kf, 0), "%s[1]" % P_(kf, 0)}
+            if rs0 == both:
+                t_ = body.blocks[call[2]]["term"]
+                if t_["k"] == "call" and t_["args"]:
+                    n_ = len(body.blocks[call[2]]["stmts"])
+                    sel_ = []
+                    for reg in (ordering["T"], ordering["F"]):
+                        rr = "|".join(sorted(ctx.roots(P.val_operand_in(kf, (call[2], n_), t_["args"][0], reg))))
+                        m_ = re.match(r"^%s\[(\d)\]$" % re.escape(P_(kf, 0)), rr)
+                        sel_.append(int(m_.group(1)) if m_ else None)
+                    if sel_ == [ordering["eA"], ordering["eB"]]:
+                        return ("sorted", 0)      # the smaller key on both edges
+                    if sel_ == [ordering["eB"], ordering["eA"]]:
+                        return ("sorted", 1)
+                return None
         if v[0] == "call" and isinstance(v[3], str) and common.last_seg(v[3]) == "index" and len(v[4]) == 2 and v[4][1][0] == "const" and v[4][1][1] == "int":
             base = v[4][0]
             k = v[4][1][2]
@@ -97,7 +142,7 @@ def analyse_key_fn(ctx, inst, kf):
             g = generic_path(c[3])
             nm = common.last_seg(g)
             if ctx.N.is_fn(c[3], "raw_as_bytes"):
-                e = elem_of(c[4][0])
+                e = elem_of(c[4][0], c)
                 d = ("var", e)
             elif nm == "index" and "array" in g:
                 # fixed-width slice of an array
@@ -108,7 +153,7 @@ def analyse_key_fn(ctx, inst, kf):
                     n = len(inner[3])
                     payload = inner[3][0][1] if n == 1 else None
                     if payload is not None and payload[0] == "call" and isinstance(payload[3], str) and roles.is_workspace_fn(P, payload[3]):
-                        d = ("fixed", n, ("tag", generic_path(payload[3]), elem_of(payload[4][0])))
+                        d = ("fixed", n, ("tag", generic_path(payload[3]), elem_of(payload[4][0], payload)))
                     else:
                         d = ("fixed", n, ("other", ctx.show(src, 3)))
                 elif inner[0] == "call" and isinstance(inner[3], str) and common.last_seg(inner[3]) in ("to_be_bytes", "to_le_bytes"):
@@ -121,7 +166,7 @@ def analyse_key_fn(ctx, inst, kf):
                     if x[0] == "call" and isinstance(x[3], str) and common.last_seg(x[3]) == "len":
                         y = x[4][0]
                         if y[0] == "call" and ctx.N.is_fn(y[3], "raw_as_bytes"):
-                            d = ("fixed", n, ("len", elem_of(y[4][0])))
+                            d = ("fixed", n, ("len", elem_of(y[4][0], y)))
                     if d is None:
                         d = ("fixed", n, ("other", ctx.show(src, 3)))
         if d is None:
@@ -162,6 +207,19 @@ def analyse_key_fn(ctx, inst, kf):
             inst.site("kind tag %s: native/token -> %s" % (tf.path, sorted(consts)))
     if inst.status == "pass":
         inst.site("encoding %s" % " | ".join("%s" % (d[0] + ":" + (str(d[1]) if d[0] == "var" else "%s(%s)" % (d[2][0], d[2][-1]))) for d in descr))
+    # ---- symmetry: compare-and-swap of the two elements ----------------------------------------------------------
+    if ordering is not None and not sorted_src:
+        names_ = ordering["callees"]
+        uses_bytes = "as_bytes" in names_
+        uses_tag = any(t_[2][1] in names_ for t_ in tags) if tags else False
+        if uses_bytes and (uses_tag or not tags):
+            inst.site("ordered by compare-and-swap on %s of each asset (smaller key first on both edges)" % sorted(x.split("::")[-1] for x in names_))
+        elif uses_bytes:
+            inst.fail("C16.R2:comparator-not-total", kf.path, common.span_of_block_term(kf, ordering["guard"].b),
+                      "the two assets are ordered by identifier bytes only; two assets with equal bytes but different kinds tie and keep the caller's order (key not symmetric)")
+        else:
+            inst.fail("C16.R2:comparator", kf.path, common.span_of_block_term(kf, ordering["guard"].b), "the ordering key is not built from the identifier bytes: unrecognised-idiom")
+        return
     # ---- symmetry: the sort ------------------------------------------------------------------------------------
     srcs = list(sorted_src.values())
     if not srcs:
